@@ -66,13 +66,34 @@ def obligations(tier):
                           encoded=ENC + ["pyrtma.manager:MessageManager.run", "pyrtma.manager:MessageManager.read_message"],
                           bounds="one round of the real run() loop with two client connections ready at once (each sends one frame: subscribe/unsubscribe/pause/resume/subscribe-all/data/disconnect), both service orders, each client previously unsubscribed/subscribed/subscribed-to-all, an old subscriber present; optionally the second client dead on write",
                           symbolic="the message type (any int32 outside the manager's own types), payload size"))
+    # bounded histories from the initial state: a publish after a subscription change after a publish (state kept outside the
+    # manager's known tables - a cached recipient list, say - is invisible to one step from a constructed state)
+    ctl0 = ["s0T", "u0T", "z0T", "r0T", "s0U", "u0U"]
+    ctl1 = ["s1A", "u1A", "z1A", "r1A"]
+    if tier == "quick":
+        hs = [["pT", "s1A", "pT"], ["s1A", "pT", "u1A", "pT"], ["s1A", "pU", "z1A", "pU", "r1A", "pU"], ["pT", "s0T", "pT", "pU"],
+              ["s0T", "pT", "u0T", "pT"], ["s0T", "pT", "z0T", "pT", "r0T", "pT"], ["s0T", "s0U", "pT", "u0U", "pT", "pU"],
+              ["pT", "s0T", "s1A", "pT", "u1A", "pT", "u0T", "pT"], ["s0T", "pT", "s1A", "u0T", "pT", "u1A", "pT"],
+              ["pT", "pU", "s1A", "pT", "pU", "z1A", "pT", "pU"], ["r0T", "pT", "z0T", "pT"], ["r1A", "pT", "z1A", "pT"]]
+    else:
+        alpha = ["pT", "pU"] + ctl0 + ctl1
+        hs = [list(h) for h in itertools.product(alpha, repeat=3) if any(x[0] == "p" for x in h[1:])]
+        hs += [["pT"] + list(h) + ["pT", "pU"] for h in itertools.product(ctl0 + ctl1, repeat=2)]
+        hs += [[a, "pT", b, "pT", c, "pT"] for a in ("s0T", "s1A") for b in ctl0 + ctl1 for c in ctl0 + ctl1]
+    obs.append(Obligation("routing_follows_subscription_history", "harness.mgr_hist", "hist", [{"steps": h} for h in hs], cond_timeout=200, path_timeout=60,
+                          reach="hist_reach", reach_shards=[{"steps": ["s1A", "pT", "u1A", "pT"]}], encoded=ENC + [
+                              "pyrtma.manager:MessageManager.add_subscription", "pyrtma.manager:MessageManager.remove_subscription",
+                              "pyrtma.manager:MessageManager.pause_subscription", "pyrtma.manager:MessageManager.resume_subscription"],
+                          bounds="histories of %s steps from the manager's initial state over {publish T, publish U, SUBSCRIBE/UNSUBSCRIBE/PAUSE/RESUME of T or U by one module, of ALL by another}" % ("3-8 (12 selected)" if tier == "quick" else "3-6 (all of length 3 that end in traffic, all two-change histories between publishes)"),
+                          symbolic="both message types (int32, may coincide), payload size"))
     return obs
 
 MANIFEST = {
     "text": "For every int32 message type (except the ALL sentinel), every int16 destination/source id, every payload size 0..65535, "
             "every assignment of module ids and every combination of logger/subscription/writable flags over 2 (quick) or 3 (thorough) recipients, "
             "the real forward_message/process_message deliver exactly as C01 specifies: CrossHair exhausts the path tree of each shard and z3 decides each branch. "
-            "Bounded in the number of simultaneous recipients only; histories are covered by the one-step-from-any-Inv-state argument (DESIGN.md section 3).",
+            "Bounded in the number of simultaneous recipients only; histories are covered by the one-step-from-any-Inv-state argument (DESIGN.md section 3), "
+            "cross-checked by bounded histories from the initial state (publish / subscription change / publish) through the real process_message.",
     "note": "ctypes shadow layer + hash-free containers (validated against the real classes on every run); sockets are recorders; FAILED_MESSAGE generation is cut here (C14); service order argument per DESIGN.md section 3",
     "design_ref": "DESIGN.md 4.1",
 }
